@@ -979,8 +979,12 @@ func (r *Raft) verifyLeader(v *verifyFuture) {
 	v.notifyCh = r.verifyCh
 	r.leaderState.notify[v] = struct{}{}
 
-	// Trigger immediate heartbeats
-	for _, repl := range r.leaderState.replState {
+	// Trigger immediate heartbeats. Only voters are asked: the quorum above is
+	// a quorum of voters, so an acknowledgement from a non-voter must not count.
+	for id, repl := range r.leaderState.replState {
+		if !hasVote(r.configurations.latest, id) {
+			continue
+		}
 		repl.notifyLock.Lock()
 		repl.notify[v] = struct{}{}
 		repl.notifyLock.Unlock()
